@@ -87,6 +87,28 @@ def run(ctx):
                 ctx.count("long_thin_grid")
     for (r, c) in [(1, 130), (130, 1)]:
         _one(ctx, dict(gen="wilson", rows=r, cols=c, kwargs={}), None, pending); ctx.count("long_thin_grid")
+    # Wilson: a very long first walk (bounces between two unvisited cells; legal, unlikely) — step budgets, caps and restarts show here
+    import c19, numpy as np
+    from maze_dataset.generation.generators import LatticeMazeGenerators as LG
+    for (r, c) in [(2, 3), (3, 3), (4, 4)] + ([] if ctx.quick else [(5, 5), (3, 7), (8, 8)]):
+        sc = c19.long_walk_script(r, c, 40 * r * c + 7)
+        if sc is None: continue
+        case = dict(gen="wilson", rows=r, cols=c, kwargs={})
+        with c19.WTap(sc, then_random=ctx.rng) as t:
+            try:
+                m = LG.gen_wilson(np.array([r, c]))
+            except Exception as e:
+                ctx.violate(f"wilson {r}x{c} raised {type(e).__name__} on a long but legal walk: {e}", dict(case=case, draws=t.draws[:200])); continue
+        gm = m.generation_meta
+        impl = dict(shape=list(m.connection_list.shape), dtype=str(m.connection_list.dtype), edges=gens.edges_of(m.connection_list), draws=list(t.draws), rands=[],
+                    arities=list(t.ranges), meta_keys=sorted(gm.keys()), func_name=gm.get("func_name"), fully_connected=bool(gm.get("fully_connected")) if "fully_connected" in gm else None,
+                    visited=None, start=None, n_accessible_cells=None, max_tree_depth=None)
+        try: impl["component"] = sorted([int(a), int(b)] for a, b in m.get_connected_component())
+        except ValueError: impl["component"] = "ValueError"
+        ctx.case(gens_canon(case, impl)); ctx.count("wilson_long_walk")
+        bad = ORACLE(case, impl)
+        if bad: ctx.violate(f"wilson {r}x{c} after a {len(sc)-3}-step walk bouncing between two unvisited cells: {bad}", dict(case=case, draws=impl["draws"], rands=[], edges=impl["edges"]))
+        pending.append((case, impl, gens.request(case, impl)))
     shapes = [(1, 2), (2, 2), (1, 3), (2, 3)] if ctx.quick else [(1, 2), (2, 2), (1, 3), (3, 1), (2, 3), (3, 2), (1, 5), (2, 4)]
     n_ex, complete = exhaustive_dfs(ctx, shapes, pending, 3000 if ctx.quick else 200000)
     ctx.extra["exhaustive_dfs_runs"] = n_ex; ctx.extra["exhaustive_dfs_complete"] = complete
